@@ -62,9 +62,9 @@ def wraps_cases(draw):
             p["name"] = "ABCDE"[len(names)]
             names.append(p["name"])
         elif kind == "ref":
-            form = draw(st.sampled_from(["A", "A*B", "A**2", "A/B", "A*A"]))
+            form = draw(st.sampled_from(["A", "A*B", "A**2", "A/B", "A*A", "A/B", "A**-1", "A/B**2", "A**2/B"]))
             a = draw(st.sampled_from(names))
-            b = draw(st.sampled_from(names))
+            b = draw(st.sampled_from([x for x in names if x != a] or names))  # a quotient of two different references when there are two
             p["expr"] = form.replace("A", a).replace("B", b) if form != "A*A" else f"{a}*{a}"
         params.append(p)
     first_default = draw(st.integers(1, n))
@@ -102,7 +102,7 @@ def wraps_cases(draw):
     ret_spec = {"kind": ret, "unit": draw(st.sampled_from(POOL["L"] + POOL["T"])), "expr": None}
     if ret in ("ref", "list") and names:
         a = draw(st.sampled_from(names))
-        ret_spec["expr"] = draw(st.sampled_from([a, f"{a}**2", f"{a}*{names[0]}"]))
+        ret_spec["expr"] = draw(st.sampled_from([a, f"{a}**2", f"{a}*{names[0]}", f"{a}/{names[-1]}", f"{names[0]}/{a}", f"{a}**-1", f"{names[0]}/{a}**2"]))
     return {"params": params, "kw_order": list(kw_order), "strict": draw(st.booleans()), "ret": ret_spec}
 
 
